@@ -46,3 +46,8 @@ package proto
 //@ trusted
 //@ pure
 //@ nondet
+
+//@ func NotificationBatch.MarshalVT
+//@ trusted
+//@ pure
+//@ nondet
